@@ -243,7 +243,9 @@ where
     let total = wrapping_pow2::<Probability>(PRECISION);
 
     if infer_last_probability {
-        if accum >= total || laps_or_zeros != 0 {
+        // `total` wraps to zero if `PRECISION == Probability::BITS`. In this case, any sum that
+        // didn't wrap around is smaller than the true total `2^PRECISION`.
+        if (PRECISION != Probability::BITS && accum >= total) || laps_or_zeros != 0 {
             return Err(());
         }
         let symbol = symbols.next().ok_or(())?;
